@@ -644,7 +644,7 @@ _NO_TRANSFORMS = dict(apply_real_world_transform=False, apply_modality_transform
                       apply_presentation_lut=False, apply_palette_color_lut=False, apply_icc_profile=False)
 
 
-def _glue_dataset(frames, ts, ba, bs, pi, pr, pc, drop_stored):
+def _glue_dataset(frames, ts, ba, bs, pi, pr, pc, drop_stored, dirty=None, planar1=False):
     """a multi-frame image (plain pydicom data set) whose frames are `encode_frame`'s bytes (native 1 bit: the frames packed
     as ONE bit stream, the way a multi-frame element holds them) and whose attributes are the parameters of that call"""
     from gen.images import MF_SC_BIT, MF_SC_BYTE, MF_SC_COLOR, MF_SC_WORD, base_dataset
@@ -669,6 +669,14 @@ def _glue_dataset(frames, ts, ba, bs, pi, pr, pc, drop_stored):
         data = pack_bits(np.concatenate([np.asarray(f).reshape(-1) for f in frames]).astype(np.uint8), pad=True)
     else:
         parts = [encode_frame(f, ts, ba, bs, pi, pr, pc) for f in frames]
+        if planar1:
+            # the same frames as ANOTHER writer stores them colour-by-plane (Planar Configuration 1; encode_frame writes
+            # colour-by-pixel only): plane after plane
+            parts = [np.ascontiguousarray(np.moveaxis(f, 2, 0)).astype(f.dtype.newbyteorder('<')).tobytes() for f in frames]
+            ds.PlanarConfiguration = 1
+        if dirty is not None:
+            # the bits above Bits Stored are not the sample's: other writers leave overlay planes / anything there
+            parts = [_dirty_cells(b, ba, bs, dirty, k) for k, b in enumerate(parts)]
         data = encapsulate(parts) if enc else b''.join(parts)
         if len(data) % 2:
             data += b'\x00'
@@ -677,6 +685,15 @@ def _glue_dataset(frames, ts, ba, bs, pi, pr, pc, drop_stored):
     if drop_stored:
         del ds.BitsStored
     return ds
+
+
+def _dirty_cells(b, ba, bs, seed, k):
+    """OR pseudo-random bits into the positions bs .. ba-1 of every little-endian cell of ba bits"""
+    dt = {8: 'u1', 16: '<u2', 32: '<u4'}[ba]
+    cells = np.frombuffer(b, dtype=dt).copy()
+    g = np.random.default_rng([seed, k]).integers(0, 2 ** (ba - bs), size=cells.shape, dtype=np.uint64)
+    low = cells.astype(np.uint64) & np.uint64(2 ** bs - 1)
+    return (low | (g << np.uint64(bs))).astype(dt).tobytes()
 
 
 GLUE_READERS = ['stored', 'stored-batch', 'frame', 'frames', 'cached-stored', 'cached-stored-batch', 'cached-frame',
@@ -785,18 +802,25 @@ def _glue(ctx, reqs, pending, only=None):
                 opts += [('int16', 16, 16, 1), ('int16', 16, 12, 1), ('int8', 8, 8, 1), ('int8', 8, 6, 1), ('int16', 16, 10, 1)]
             if ts in NATIVE:
                 opts += [('uint32', 32, 32, 0), ('int32', 32, 20, 1)]
+            if ts in NATIVE and r.random() < 0.5:
+                opts = [o for o in opts if o[2] < o[1]]      # fewer bits stored than allocated: the high bits are nobody's
             dt, ba, bs, pr = r.choice(opts)
             pi = r.choice(['MONOCHROME2', 'MONOCHROME1'])
             frames = [_mk_array(nr, dt, (rows, cols), ba, bs, pr) for _ in range(nfr)]
         drop_stored = kind != 'bits' and r.random() < 0.25
+        # data another writer could have produced: anything in the bits above Bits Stored; colour-by-plane storage
+        dirty = (i + 1) if (ts in NATIVE and kind == 'cells' and bs < ba and r.random() < 0.7) else None
+        if dirty is not None:
+            drop_stored = False
+        planar1 = ts in NATIVE and kind == 'colour' and r.random() < 0.5
         num = r.choice(['int', 'int', 'int64', 'uint8', 'int16'])
         as_index = r.random() < 0.4
         case = {'kind': 'glue', 'ts': ts, 'dtype': dt, 'ba': ba, 'bs': bs, 'pi': pi, 'pr': pr, 'pc': pc, 'samples': 3 if kind == 'colour' else None,
                 'shape': [nfr, rows, cols] + ([3] if kind == 'colour' else []), 'drop_stored': drop_stored, 'num': num,
-                'as_index': as_index, 'glue_index': i,
+                'as_index': as_index, 'glue_index': i, 'dirty_high_bits': dirty is not None, 'planar1': planar1,
                 'data': np.stack(frames).astype(np.int64).reshape(-1).tolist()}
         try:
-            ds = _glue_dataset(frames, ts, ba, bs, pi, pr, pc, drop_stored)
+            ds = _glue_dataset(frames, ts, ba, bs, pi, pr, pc, drop_stored, dirty=dirty, planar1=planar1)
         except Exception as e:  # noqa: BLE001
             if _classify_exception(e) == 'codec':       # a limit of the codec below (pyjpegls on small noisy frames): a refusal, no bytes
                 ctx.hist('glue_codec_limit', TSNAME[ts])
@@ -813,6 +837,7 @@ def _glue(ctx, reqs, pending, only=None):
                  nontrivial_key=('glue', ts, dt, ba, bs, kind, nfr, aligned if kind == 'bits' else None, drop_stored),
                  kind='glue', syntax=TSNAME[ts], glue_kind=kind, bits=f'{ba}/{bs}', glue_frames=nfr,
                  glue_stored_attr='absent' if drop_stored else 'present',
+                 glue_high_bits='garbage' if dirty is not None else 'clean', glue_planar=('1' if planar1 else ('0' if kind == 'colour' else 'none')),
                  glue_frame_number=('index' if as_index else 'number') + '/' + num,
                  **({'glue_bits_fill_bytes': aligned} if kind == 'bits' else {}))
         for reader, got in out.items():
@@ -826,13 +851,14 @@ def _glue(ctx, reqs, pending, only=None):
                                     'got': np.asarray(g).astype(np.int64).reshape(-1)[:16].tolist(),
                                     'want': np.asarray(frames[k]).astype(np.int64).reshape(-1)[:16].tolist()}, site='glue-' + reader)
         # ---- model (L0, native): `readFrame` = decode_frame with the data set's attributes on the frame's raw bytes and index
-        if ts in NATIVE and kind != 'colour' and all(x is not None for x in raws) and dt != 'int32' and rows * cols <= 400:
+        spp_ = 3 if kind == 'colour' else 1
+        if ts in NATIVE and all(x is not None for x in raws) and rows * cols * spp_ <= 400:
             for k in range(nfr):
                 st = out.get('stored', [None] * nfr)[k]
                 if isinstance(st, tuple) or st is None:
                     continue
-                reqs.append(('readFrame', {'ts': ts, 'rows': rows, 'cols': cols, 'samples': 1, 'ba': ba,
-                                           'bs': None if drop_stored else bs, 'pi': pi, 'pr': pr, 'planar': pc,
+                reqs.append(('readFrame', {'ts': ts, 'rows': rows, 'cols': cols, 'samples': spp_, 'ba': ba,
+                                           'bs': None if drop_stored else bs, 'pi': pi, 'pr': pr, 'planar': (1 if planar1 else pc),
                                            'bytes': list(raws[k]), 'index': k}))
                 pending.append((case, 'values', np.asarray(st).astype(np.int64).reshape(-1).tolist()))
         # ---- decode_frame called directly with index = k on the bytes that cover frame k of the packed bit stream
